@@ -46,6 +46,10 @@ pub struct Ctx {
     pub global_threads: usize,
     /// unique id of the simulated execution this context belongs to
     pub exec_id: u64,
+    /// seed and counter of the choices a *model* makes on behalf of the library it stands
+    /// in for (where rayon splits a fold, for instance); a function of the run's seeds only
+    pub model_seed: u64,
+    pub model_ctr: u64,
 }
 
 impl Default for Ctx {
@@ -60,6 +64,8 @@ impl Default for Ctx {
             aborting: false,
             global_threads: 4,
             exec_id: NEXT_EXEC.fetch_add(1, std::sync::atomic::Ordering::Relaxed),
+            model_seed: 0,
+            model_ctr: 0,
         }
     }
 }
@@ -69,6 +75,17 @@ static NEXT_EXEC: std::sync::atomic::AtomicU64 = std::sync::atomic::AtomicU64::n
 thread_local! {
     static CTX: RefCell<Ctx> = RefCell::new(Ctx::default());
     static IN_SIM: Cell<bool> = const { Cell::new(false) };
+}
+
+/// A seeded choice in `0..bound` made by a stand-in (see `Ctx::model_seed`).
+pub fn model_choice(bound: u64) -> u64 {
+    if bound <= 1 {
+        return 0;
+    }
+    with(|c| {
+        c.model_ctr += 1;
+        crate::rng::mix(&[c.model_seed, c.model_ctr]) % bound
+    })
 }
 
 pub fn with<R>(f: impl FnOnce(&mut Ctx) -> R) -> R {
